@@ -90,6 +90,7 @@ type State struct {
 	inited  map[*ssa.Package]bool
 	mutexes int
 	formats map[string]StrV
+	freezeGlobals bool
 }
 
 type Violation struct {
@@ -156,6 +157,7 @@ type Exec struct {
 	unsatMemo map[uint32]*PCNode
 	symAddr bool
 	cur *State
+	inAtomic bool
 	cvc5Time time.Duration
 	unresolved int
 	hardNext bool
@@ -215,7 +217,7 @@ func (ex *Exec) resetStats() {
 func (st *State) top() *Frame { return st.frames[len(st.frames)-1] }
 
 func (st *State) clone() *State {
-	n := &State{pc: st.pc, steps: st.steps, mutexes: st.mutexes}
+	n := &State{pc: st.pc, steps: st.steps, mutexes: st.mutexes, freezeGlobals: st.freezeGlobals}
 	n.frames = make([]*Frame, len(st.frames))
 	for i, f := range st.frames {
 		n.frames[i] = f.clone()
@@ -773,6 +775,9 @@ func (ex *Exec) globalObj(st *State, g *ssa.Global) int {
 	t := g.Type().(*types.Pointer).Elem()
 	id := ex.newCellObj(st, t)
 	ex.obj(st, id).tag = "global " + g.String()
+	if st.freezeGlobals {
+		ex.obj(st, id).frozen = true
+	}
 	st.globals[g] = id
 	return id
 }
